@@ -69,6 +69,22 @@ CHECKS = {
                 note="Trusted: my exact integer oracle (two independent copies, C++ and Python). Coordinates are "
                      "restricted to dyadic values for which all of gdstk's products are exact.",
                 technique="exhaustive enumeration + property-based testing (Hypothesis) vs exact winding-number oracle"),
+    "C17": dict(level="exploration", design="4 C17",
+                text="Differential with the full load as reference over generated files from two sources (gdstk-written and "
+                     "independently encoded): gds_info, gds_units, gds_timestamp (read and write), tag-filtered load, "
+                     "target-unit load, raw cells re-emitted through GdsWriter and Library::write_gds (byte-identical "
+                     "structures, identical re-load).",
+                note="Trusted: pbt/gdsref.py for record boundaries, BGNLIB/BGNSTR contents and counts; the full loader is the "
+                     "reference by definition of the property. Empty filter sets are not generated.",
+                technique="differential property-based testing (Hypothesis): five partial readers vs the full reader"),
+    "C18": dict(level="fault_enumeration", design="6",
+                text="Every prefix length of every generated file (gdstk-written GDSII, independently encoded GDSII, gdstk-written "
+                     "OASIS under drawn options) is fed to every reader in scope inside a forked, sanitised child with a "
+                     "watchdog and a descriptor count; outcomes are judged by the table of DESIGN 6.2; repeated-call clause on "
+                     "selected prefixes. Exhaustive per file, sampled over files.",
+                note="The full OASIS loader is outside the claim (DESIGN 6.3). Leaks of memory are not judged, descriptors are. "
+                     "Files are small (0.3-5 kB) so that every byte position is cut.",
+                technique="fault injection: exhaustive truncation-point enumeration over generated files with a per-reader outcome oracle"),
     "C19": dict(level="exploration", design="4 C19",
                 text="Systematic boundary values (every power of 16 / every 7-bit group boundary / every direction) plus "
                      "Hypothesis-generated values and point lists through gdstk's encoders and decoders, judged by "
